@@ -106,4 +106,13 @@ PLANS = {
         "assumptions": ["'refused' = any Exception subclass; SystemExit or a normal return on an invalid definition is a violation", "single faults are enumerated completely per drawn definition; pairs and definitions are sampled"],
         "extra_coverage": {"exhaustive": False},
     },
+    "C15": {
+        "level": "exploration",
+        "legs": [{"world": "hashseed", "quick": {"runs": 32, "budget_s": 70}, "thorough": {"runs": 600, "budget_s": 1500}, "run_timeout": 900, "chunk": 1}],
+        "rule": "per run: 2 (thorough 6) seeded definitions x 4 (8) fresh interpreters with PYTHONHASHSEED in {0, an extreme, PRNG-drawn} x 3 (5) variants (declaration order of symbols/sensors/readings/noise entries shuffled, container kind in set/list/tuple/frozenset); each generation runs the real cpp.compile_ekf on a simulated FS and python.compile/compile_ekf, twice per interpreter for the first variant; sha256 of header, source and the Python layouts must be identical across all environments of one definition. non-trivial = every run (each has >=4 hash seeds and >=3 declaration variants); distinct by schedule digest",
+        "abstract_measure": "distinct (model index, variant index, state container kind)",
+        "expect_probes": ["fault:hashseed", "fault:decl_perm", "fault:container"],
+        "components": {"real": ["formak.cpp.compile_ekf / header_from_ast / source_from_ast", "formak.python.compile / compile_ekf (layouts)", "fresh CPython interpreters (real PYTHONHASHSEED)"], "stub": ["file system: formak.cpp.open shadowed by an in-memory recorder"]},
+        "assumptions": ["the definition is transported as sympy srepr strings, so it is identical in every interpreter"],
+    },
 }
